@@ -159,6 +159,10 @@ func scanSharedWrites(w *World) (checked []string, findings []writeFinding, assu
 				case *ssa.Store:
 					if isShared(sh, x.Addr) {
 						report("store through "+x.Addr.Name(), in)
+					} else if trackEscapes && isShared(sh, x.Val) && refLikeType(x.Val.Type()) && !readOnlyGlobal(x.Val) {
+						// a reference to package-level storage is planted in an object: every instance
+						// holding it shares (and may later write) that storage
+						report("reference to package-level storage stored into an object (shared between instances)", in)
 					}
 				case *ssa.MapUpdate:
 					if isShared(sh, x.Map) {
@@ -192,6 +196,10 @@ func scanSharedWrites(w *World) (checked []string, findings []writeFinding, assu
 								report(fmt.Sprintf("call of %s, which writes through argument %d", shortFn(callee), i), in)
 							}
 						case callee != nil && callee.Pkg != nil && safeDep(callee.Pkg.Pkg.Path()):
+							// a byte buffer handed to a dependency that fills it (Read*, ReadFrom*, ...) is a write
+							if isByteSlice(a.Type()) && fillsBuffer(callee) {
+								report(fmt.Sprintf("shared byte buffer passed to %s, which writes into it", callee.String()), in)
+							}
 						case cm.IsInvoke():
 							// interface method on a shared value: module interfaces are resolved through all implementers
 							handled := false
@@ -261,6 +269,48 @@ func scanSharedWrites(w *World) (checked []string, findings []writeFinding, assu
 		"a value loaded from package-level storage is a scalar copy unless it is a pointer, slice, map, interface, channel or function",
 		"package initialisers (init, variable initialisers) run before any API call"}
 	return
+}
+
+var trackEscapes = true
+
+func refLikeType(t types.Type) bool {
+	switch t.Underlying().(type) {
+	case *types.Pointer, *types.Slice, *types.Map, *types.Interface, *types.Chan:
+		return true
+	}
+	return false
+}
+
+// readOnlyGlobal: values whose sharing is harmless - prometheus metrics (internally synchronised)
+// and anything whose static type comes from a dependency on the safe list.
+func readOnlyGlobal(v ssa.Value) bool {
+	t := v.Type()
+	for {
+		if pt, ok := t.Underlying().(*types.Pointer); ok {
+			t = pt.Elem()
+			continue
+		}
+		break
+	}
+	if nt, ok := t.(*types.Named); ok && nt.Obj().Pkg() != nil {
+		return strings.HasPrefix(nt.Obj().Pkg().Path(), "github.com/prometheus/")
+	}
+	return false
+}
+
+func isByteSlice(t types.Type) bool {
+	sl, ok := t.Underlying().(*types.Slice)
+	if !ok {
+		return false
+	}
+	b, ok := sl.Elem().Underlying().(*types.Basic)
+	return ok && b.Kind() == types.Uint8
+}
+
+// fillsBuffer: dependency functions that write into the byte slice they are given.
+func fillsBuffer(f *ssa.Function) bool {
+	n := f.Name()
+	return strings.HasPrefix(n, "Read") || n == "CryptBlocks" || n == "XORKeyStream" || strings.HasPrefix(n, "Put") || n == "Sum" && false
 }
 
 // sharedValuesNoGlobals: taint from the given parameters only (for summaries).
